@@ -49,6 +49,10 @@ pub enum Ty {
     /// `xN`: a type with a hand-written impl of which only PACKED_LEN = N is known
     XN(usize),
     Arr(usize, Box<Ty>),
+    /// `hv(N,T)`: `heapless::Vec<T, N>` (hand-written impl of impls.rs; read-only)
+    HVec(usize, Box<Ty>),
+    /// `hs(N)`: `heapless::String<N>` (hand-written impl of impls.rs; read-only)
+    HStr(usize),
     Tup(Vec<Ty>),
     Enum(EnumTy),
     Struct(StructTy),
@@ -133,6 +137,8 @@ impl Ty {
             Ty::X => "x".into(),
             Ty::XN(n) => format!("x{n}"),
             Ty::Arr(n, t) => format!("a({n},{})", t.show()),
+            Ty::HVec(n, t) => format!("hv({n},{})", t.show()),
+            Ty::HStr(n) => format!("hs({n})"),
             Ty::Tup(ts) => format!("t({})", ts.iter().map(|t| t.show()).collect::<Vec<_>>().join(",")),
             Ty::Enum(e) => {
                 let mut s = format!("e({}", e.repr);
@@ -157,9 +163,28 @@ impl Ty {
     pub fn contains_x(&self) -> bool {
         match self {
             Ty::X | Ty::XN(_) => true,
-            Ty::Arr(_, t) => t.contains_x(),
+            Ty::Arr(_, t) | Ty::HVec(_, t) => t.contains_x(),
             Ty::Tup(ts) => ts.iter().any(|t| t.contains_x()),
             Ty::Struct(s) => s.fields.iter().any(|(_, t)| t.contains_x()),
+            _ => false,
+        }
+    }
+    /// Contains a `heapless::Vec` / `heapless::String` (not `Copy`: cannot be a field of the generated structs).
+    pub fn contains_heapless(&self) -> bool {
+        match self {
+            Ty::HVec(..) | Ty::HStr(_) => true,
+            Ty::Arr(_, t) => t.contains_heapless(),
+            Ty::Tup(ts) => ts.iter().any(|t| t.contains_heapless()),
+            Ty::Struct(s) => s.fields.iter().any(|(_, t)| t.contains_heapless()),
+            _ => false,
+        }
+    }
+    /// Built from the hand-written impls of impls.rs only (no derived struct/enum inside).
+    pub fn impl_only(&self) -> bool {
+        match self {
+            Ty::Prim(_) | Ty::Unit | Ty::HStr(_) => true,
+            Ty::Arr(_, t) | Ty::HVec(_, t) => t.impl_only(),
+            Ty::Tup(ts) => ts.iter().all(|t| t.impl_only()),
             _ => false,
         }
     }
@@ -275,10 +300,10 @@ impl<'a> P<'a> {
 
     pub fn ty(&mut self) -> Option<Ty> {
         let name = self.ident();
-        if self.peek() == Some(b'(') && matches!(name.as_str(), "a" | "t" | "e" | "s") {
+        if self.peek() == Some(b'(') && matches!(name.as_str(), "a" | "t" | "e" | "s" | "hv" | "hs") {
             self.i += 1;
             match name.as_str() {
-                "a" => {
+                "a" | "hv" => {
                     let n = self.nat()? as usize;
                     if !self.eat(b',') {
                         return None;
@@ -287,7 +312,14 @@ impl<'a> P<'a> {
                     if !self.eat(b')') {
                         return None;
                     }
-                    Some(Ty::Arr(n, Box::new(t)))
+                    Some(if name == "a" { Ty::Arr(n, Box::new(t)) } else { Ty::HVec(n, Box::new(t)) })
+                }
+                "hs" => {
+                    let n = self.nat()? as usize;
+                    if !self.eat(b')') {
+                        return None;
+                    }
+                    Some(Ty::HStr(n))
                 }
                 "t" => {
                     let mut ts = Vec::new();
@@ -500,6 +532,8 @@ pub fn rust_type(t: &Ty, item: &dyn Fn(&Ty) -> String) -> String {
         Ty::Unit => "()".into(),
         Ty::X | Ty::XN(_) => "Unknown".into(),
         Ty::Arr(n, e) => format!("[{}; {n}]", rust_type(e, item)),
+        Ty::HVec(n, e) => format!("heapless::Vec<{}, {n}>", rust_type(e, item)),
+        Ty::HStr(n) => format!("heapless::String<{n}>"),
         Ty::Tup(ts) => format!("({})", ts.iter().map(|t| rust_type(t, item) + ",").collect::<Vec<_>>().join(" ")),
         Ty::Enum(_) | Ty::Struct(_) | Ty::Named(_) => item(t),
     }
